@@ -193,6 +193,10 @@ func registerVAPI(I map[string]intrinsicFn) {
 		w.smallExpBits = w.concInt(a[0], "exponent bits")
 		return nil
 	}
+	I[P+"vOrderHint"] = func(w *Worker, fn *ssa.Function, a []Value) Value {
+		w.orderHint = w.concInt(a[0], "hint") != 0
+		return nil
+	}
 	I[P+"vBigStrip"] = func(w *Worker, fn *ssa.Function, a []Value) Value {
 		w.bigStripMax = w.concInt(a[0], "strip")
 		return nil
